@@ -27,6 +27,8 @@ type Script struct {
 	Proto string `json:"proto"`
 	Probe bool   `json:"probe"`
 	Reqs  []Req  `json:"reqs"`
+	// NeverIndexUA (HTTP/2): the user-agent field is sent as an HPACK "never indexed" literal
+	NeverIndexUA bool `json:"never_index_ua,omitempty"`
 }
 
 var col = vstat.New("C15", "c15.probe")
@@ -68,6 +70,7 @@ func genUA(t *rapid.T) string {
 func gen(t *rapid.T) Script {
 	var s Script
 	s.Proto = rapid.SampledFrom([]string{"h2", "http/1.1", "none"}).Draw(t, "proto")
+	s.NeverIndexUA = s.Proto == "h2" && rapid.Bool().Draw(t, "neverIndexUA")
 	s.Probe = rapid.IntRange(0, 3).Draw(t, "probe") != 0
 	n := rapid.IntRange(1, 4).Draw(t, "n")
 	for i := 0; i < n; i++ {
@@ -119,6 +122,9 @@ func exec(t *testing.T, s Script) *vstat.Violation {
 			return
 		}
 		defer cc.Close()
+		if s.NeverIndexUA && cc.H2 != nil {
+			cc.H2.NeverIndex = map[string]bool{"user-agent": true}
+		}
 		for _, r := range s.Reqs {
 			rs := rig.ReqSpec{Method: r.Method, Path: r.Path, Authority: "example.com"}
 			for _, u := range r.UA {
@@ -191,6 +197,9 @@ func exec(t *testing.T, s Script) *vstat.Violation {
 			}
 		}
 	}
+	if s.NeverIndexUA {
+		cl = append(cl, "user-agent-sent-as-never-indexed-literal")
+	}
 	col.Case(fmt.Sprintf("%+v", s), nt, s, dedup(cl)...)
 	return nil
 }
@@ -209,6 +218,6 @@ func dedup(in []string) []string {
 
 func TestProbe(t *testing.T) {
 	rig.Certs()
-	col.Mandatory("proto:h2", "proto:http/1.1", "probe-support:true", "probe-support:false", "ua-absent", "ua-probe-prefix", "ua-contains-literal-elsewhere", "ua-other", "ua-lines-disagree")
+	col.Mandatory("proto:h2", "proto:http/1.1", "probe-support:true", "probe-support:false", "ua-absent", "ua-probe-prefix", "ua-contains-literal-elsewhere", "ua-other", "ua-lines-disagree", "user-agent-sent-as-never-indexed-literal")
 	vstat.Run(t, vstat.Spec[Script]{Col: col, Quick: 2500, Thorough: 60000, Gen: gen, Exec: func(s Script) *vstat.Violation { return exec(t, s) }})
 }
